@@ -125,6 +125,22 @@ def replay_behaviour(U, beh, tmpdir, rng=None, forms=False):
     trace = []
     objs = {}
     for n, (op, x) in enumerate(beh):
+        try:
+            _one_step(U, kr, objs, n, op, x, tmpdir, rng, forms)
+        except MachineryError:
+            raise
+        except Exception as ex:
+            trace.append({'op': op, 'x': x, 'raised': True, 'exc': repr(ex)[:120]})
+            break
+        ev = {'op': op, 'x': x}
+        if forms or n == len(beh) - 1:
+            ev['obs'] = U.observe(kr)
+        trace.append(ev)
+    return trace
+
+
+def _one_step(U, kr, objs, n, op, x, tmpdir, rng, forms):
+    if True:
         base = x.split('#')[0]
         if op == 'load':
             form = 'obj'
@@ -162,11 +178,6 @@ def replay_behaviour(U, beh, tmpdir, rng=None, forms=False):
             if o is None:
                 o = U.obj[base]
             kr.unload(o)
-        ev = {'op': op, 'x': x}
-        if forms or n == len(beh) - 1:
-            ev['obs'] = U.observe(kr)
-        trace.append(ev)
-    return trace
 
 
 def validate(ctx, U, traces, instances, label):
